@@ -1798,7 +1798,7 @@ class StateEngine(object):
                         event.pop("failed", None)  # The enclosing state may handle it
                         handle_error(state, data.get("Error"), data.get("Cause"))
                 else:
-                    asl_state_collect_results(state_type)
+                    asl_state_collect_results(state_type, id)
             else:
                 """
                 If task_terminated just tidy up self.branch_metadata for current
@@ -3152,7 +3152,7 @@ class StateEngine(object):
             
             self.event_dispatcher.set_timeout(asl_state_Map_delegate, retry_timeout)
 
-        def asl_state_collect_results(state_type):
+        def asl_state_collect_results(state_type, own_id=None):
             """
             Collect the results from the branches of Parallel and Map states.
             Wait until every branch terminates (reaches a terminal state) before
@@ -3252,6 +3252,13 @@ class StateEngine(object):
             result[index] = data
             if previous_state_type != "Parallel" and previous_state_type != "Map":
                 event_ids[index] = id
+            elif own_id != None:
+                """
+                A Map state with an empty array completes in its own handler,
+                so unlike one that launched iterations its event has not been
+                acknowledged yet and is held like any other branch's.
+                """
+                event_ids[index] = own_id
 
             #print("----- asl_state_collect_results -----")
             #print(result)
